@@ -216,6 +216,80 @@ def present_source(sched, d, t):
     return ("default",)
 
 
+# Equal priorities.  Clause 12.24 (up to the revisions that added "the lowest array index prevails") does not say which of
+# two exceptions of the same EventPriority that are in effect on one day prevails.  The reference therefore does not pick
+# one: it resolves the tie in EVERY possible order of precedence and gives the SET of values.
+#
+#   reading "per exception" (clause 12.24.4 applied to each strict order): the tied exceptions are given distinct, adjacent
+#       priorities in the order of the permutation and present_value() above decides; an exception whose current value is
+#       NULL (no element on or before the current time, an empty list, or a NULL element) lets the next one speak.
+#   reading "per level" (a priority level is one slot, as in a command priority array): of the tied exceptions that HAVE an
+#       element on or before the current time, the one that comes first in the permutation speaks for the level; if that
+#       element is NULL the level is relinquished and the next lower priority level / the weekly list / the default applies.
+#       An exception without any element on or before the current time has written nothing and hides nobody.
+#
+# Both sets contain only values of exceptions that are in effect with an element in effect, or what lies below the level.
+
+import itertools as _it
+
+
+def tie_resolutions(sched, d):
+    """Every strict order of precedence of the exceptions in effect on date d.
+    Yields (resolved schedule, order) where `order` lists the exceptions in effect by falling precedence and the resolved
+    schedule is the input with priorities replaced (old priority * n + rank inside the group of equals), so that no two
+    exceptions in effect on d are equal and the order between different old priorities is kept."""
+    excs = list(sched.get("exceptions") or [])
+    inforce = [k for k, e in enumerate(excs) if period_matches(e["period"], d)]
+    groups = {}
+    for k in inforce:
+        groups.setdefault(excs[k]["prio"], []).append(k)
+    prios = sorted(groups)
+    n = len(excs) + 1
+    for choice in _it.product(*[_it.permutations(groups[p]) for p in prios]):
+        new = [dict(e, prio=e["prio"] * n + n - 1) for e in excs]
+        order = []
+        for perm in choice:
+            for rank, k in enumerate(perm):
+                new[k]["prio"] = excs[k]["prio"] * n + rank
+                order.append(k)
+        res = dict(sched)
+        res["exceptions"] = tuple(new)
+        yield res, tuple(order)
+
+
+def _has_element_in_effect(tvs, t):
+    return any(tuple(tt) <= tuple(t) for (tt, v) in tvs)
+
+
+def admissible_values(sched, d, t):
+    """(active, per-exception set, per-level set): the values the two readings above prescribe over all orders of precedence
+    among exceptions of equal priority in effect on d.  Without such a tie the first set is {present_value()[1]}."""
+    if not active(sched, d):
+        return (False, set(), set())
+    excs = list(sched.get("exceptions") or [])
+    per_exception, per_level = set(), set()
+    for res, order in tie_resolutions(sched, d):
+        per_exception.add(present_value(res, d, t)[1])
+        # per level: walk the levels in order of priority, inside a level in the order of this permutation
+        value = None
+        closed = set()                                  # levels already spoken for
+        for k in order:
+            e = excs[k]
+            if e["prio"] in closed:
+                continue
+            if value is None and _has_element_in_effect(e["tv"], t):
+                closed.add(e["prio"])
+                value = list_value(e["tv"], t)          # None: the level is relinquished
+        if value is None:
+            weekly = sched.get("weekly")
+            if weekly:
+                value = list_value(weekly[d.weekday()], t)
+        if value is None:
+            value = sched["default"]
+        per_level.add(value)
+    return (True, per_exception, per_level)
+
+
 def all_times(sched):
     """Every time of day at which the value can change: 00:00 and every entry time."""
     ts = {(0, 0, 0, 0)}
